@@ -5,6 +5,8 @@
 package vsync
 
 import (
+	"fmt"
+	"sort"
 	"sync"
 
 	"verif/mc/vsched"
@@ -153,4 +155,24 @@ func (m *Map) LoadAndDelete(k any) (any, bool) {
 	vsched.Point("Map.LoadAndDelete")
 	return m.m.LoadAndDelete(k)
 }
-func (m *Map) Range(f func(k, v any) bool) { vsched.Point("Map.Range"); m.m.Range(f) }
+// Range iterates in a canonical order (sorted by the keys' printed form):
+// sync.Map's own order is random, which would make executions irreproducible.
+// Code whose result depends on that order is explored for this one order only.
+func (m *Map) Range(f func(k, v any) bool) {
+	vsched.Point("Map.Range")
+	type kv struct {
+		s    string
+		k, v any
+	}
+	var all []kv
+	m.m.Range(func(k, v any) bool {
+		all = append(all, kv{fmt.Sprintf("%T:%020v", k, k), k, v})
+		return true
+	})
+	sort.Slice(all, func(i, j int) bool { return all[i].s < all[j].s })
+	for _, e := range all {
+		if !f(e.k, e.v) {
+			return
+		}
+	}
+}
